@@ -441,37 +441,76 @@ def _responses(prog: Program, run: Run) -> None:
         raise AnalysisError("_ident_response_matches: expected one loop over the responses")
     lp = loops[0]
     good = True
-    for r in [x for x in ast.walk(lp) if isinstance(x, ast.Return)]:
-        cs = cfg.branch_conditions(cfg.node_of(r))
-        val = ast.unparse(r.value) if r.value is not None else "None"
-        matched = any((call_name(t) == "matches" and pol) or
-                      (isinstance(t, ast.UnaryOp) and isinstance(t.op, ast.Not) and
-                       call_name(t.operand) == "matches" and not pol) for t, pol in cs)
-        if val == "True" and matched:
-            continue
+    # one iteration of the loop as a table: (decoding raises DecodeError | decodes and the
+    # parameter matches | decodes and does not match) -> (search ends with True | goes on)
+    it_paths = symbolic_block_paths(lp.body)
+
+    def catches_decode_error(h: ast.ExceptHandler) -> bool:
+        if h.type is None:
+            return True
+        names = [ast.unparse(e).split(".")[-1] for e in (
+            h.type.elts if isinstance(h.type, ast.Tuple) else [h.type])]
+        return any(n_ in ("DecodeError", "OdxError", "Exception") for n_ in names)
+
+    def outcomes(raised: bool, match: bool) -> Set[str]:
+        def leaf(t: ast.AST):
+            if isinstance(t, ast.Call) and call_name(t) == "matches":
+                return match
+            return None
+        outs: Set[str] = set()
+        for p_ in it_paths:
+            took = [x for x in p_.trace if isinstance(x, ast.ExceptHandler)]
+            if raised != bool(took):
+                continue
+            if raised and not all(catches_decode_error(h) for h in took):
+                continue
+            if not all(eval_test(t, {}, leaf) in (None, pol) for t, pol in p_.conds):
+                continue
+            if p_.ret is None:
+                outs.add("next")
+            elif p_.ret.value is None and not isinstance(p_.ret, ast.Return):
+                outs.add("next")
+            else:
+                # `continue` / `break` of the loop were turned into bare returns by the block
+                # wrapper; a real `return <value>` ends the search
+                v = p_.retval
+                if v is None:
+                    outs.add("next")
+                else:
+                    r_ = eval_test(v, {}, leaf)
+                    outs.add("found" if r_ is True else f"ends:{ast.unparse(v)}")
+        return outs
+    has_try = any(isinstance(t, ast.Try) for t in ast.walk(lp))
+    raised_out = outcomes(True, False) | outcomes(True, True)
+    if not has_try or not raised_out:
+        good = False
+        run.violation(R, "VariantMatcher._ident_response_matches", "decode-error-not-skipped",
+                      "a response object that cannot decode the bytes (DecodeError) is not "
+                      "skipped", f.loc)
+    elif raised_out != {"next"}:
         good = False
         run.violation(R, "VariantMatcher._ident_response_matches", "returns-before-all-tried",
-                      f"`return {val}` inside the loop ends the search although the current "
-                      "response object did not match: response objects that decode the same "
+                      f"after a DecodeError of one response object the loop does "
+                      f"{sorted(raised_out)} instead of trying the next response object",
+                      f.loc)
+    if outcomes(False, True) != {"found"}:
+        good = False
+        run.violation(R, "VariantMatcher._ident_response_matches", "match-not-reported",
+                      f"a response object that decodes and matches makes one iteration "
+                      f"{sorted(outcomes(False, True))}, not `return True`", f.loc)
+    if outcomes(False, False) != {"next"}:
+        good = False
+        run.violation(R, "VariantMatcher._ident_response_matches", "returns-before-all-tried",
+                      f"a response object that decodes but does not match makes one iteration "
+                      f"{sorted(outcomes(False, False))}: response objects that decode the same "
                       "bytes later in the list (e.g. a global negative response) are never tried",
-                      f"{f.module.rel}:{r.lineno}", stmt_key(r))
+                      f.loc)
     for x in ast.walk(lp):
         if isinstance(x, ast.Break):
             good = False
             run.violation(R, "VariantMatcher._ident_response_matches", "break",
                           "the loop over the response objects is left early",
                           f"{f.module.rel}:{x.lineno}")
-    # DecodeError of one response object is skipped
-    handlers = [h for t in ast.walk(lp) if isinstance(t, ast.Try) for h in t.handlers]
-    if not any(h.type is not None and ast.unparse(h.type).split(".")[-1] in ("DecodeError",
-                                                                            "OdxError")
-               or (h.type is not None and isinstance(h.type, ast.Tuple) and any(
-                   ast.unparse(e).endswith("DecodeError") for e in h.type.elts))
-               for h in handlers):
-        good = False
-        run.violation(R, "VariantMatcher._ident_response_matches", "decode-error-not-skipped",
-                      "a response object that cannot decode the bytes (DecodeError) is not "
-                      "skipped", f.loc)
     # decoded with the received bytes, compared by the matching parameter
     dec = [x for x in ast.walk(lp) if isinstance(x, ast.Call) and call_name(x) == "decode"]
     if not dec or any(ast.unparse(d.args[0]) != rbytes for d in dec if d.args):
